@@ -196,7 +196,20 @@ func genElement(rng *rand.Rand) ([]byte, string) {
 func genTruncation(rng *rand.Rand) ([]byte, string) {
 	k := rng.Intn(len(corpus))
 	b := corpus[k]
-	return b[:rng.Intn(len(b)+1)], "truncation|" + corpusNames[k]
+	cut := rng.Intn(len(b) + 1)
+	if rng.Intn(2) == 0 && len(b) > 0 {
+		// at and next to the places where elements begin and end in index files and small archives
+		cands := []int{0, 8, 15, 16, 47, 48, 49, 55, 56, 57, 63, 64, 65, 72, 104, len(b) - 41, len(b) - 40, len(b) - 39, len(b) - 9, len(b) - 8, len(b) - 1}
+		cut = cands[rng.Intn(len(cands))]
+		if cut < 0 || cut > len(b) {
+			cut = rng.Intn(len(b) + 1)
+		}
+	}
+	return b[:cut], fmt.Sprintf("truncation|%s|%d-of-%d", corpusNames[k], cut, len(b))
+}
+
+func isIndexName(n string) bool {
+	return strings.HasSuffix(n, ".caibx") || strings.HasSuffix(n, ".caidx") || strings.HasSuffix(n, ".index") || strings.HasPrefix(n, "own-index")
 }
 
 func genMutation(rng *rand.Rand) ([]byte, string) {
@@ -448,6 +461,16 @@ func run(c *harness.Ctx, i int) {
 			c.Violation("alloc:"+target+":"+classOf(gen), "%s allocated %d bytes for an input of %d bytes (%s; bound %d): %x...", target, r.alloc, len(in), gen, bound, in[:min(len(in), 48)])
 			saveInput(c, in)
 			return
+		}
+		// a strict prefix of an index file is malformed input: it must yield an error, not a (shorter) table
+		if f := strings.Split(gen, "|"); target == "index" && f[0] == "truncation" && len(f) == 3 && isIndexName(f[1]) && strings.HasPrefix(r.outcome, "ok") {
+			var cut, full int
+			fmt.Sscanf(f[2], "%d-of-%d", &cut, &full)
+			if cut < full {
+				c.Violation("malformed-accepted:index", "IndexFromReader accepted the first %d of the %d bytes of %s as an index (%s)", cut, full, f[1], r.outcome)
+				saveInput(c, in)
+				return
+			}
 		}
 		if r.outcome == "error" || r.outcome == "ok:2" {
 			g := gen
